@@ -336,7 +336,7 @@ static int bad_dstuParamsVal(fc_ctx* c, int j, err_t* exp)
 	case 6: p->P[0] ^= 1; return 1;                        /* base point off the curve */
 	case 7: memset(p->P, 0, sizeof(p->P)); return 1;
 	case 8: p->p[1] = p->p[0]; return 1;                   /* not a polynomial description */
-	case 9: p->c += 2; return 1;                           /* order * cofactor outside the Hasse interval */
+	case 9: p->c = 6; return 1;                            /* order * cofactor outside the Hasse interval */
 	}
 	return 0;
 }
